@@ -16,6 +16,7 @@ import (
 	"os/exec"
 	"strings"
 	"sync"
+	"sync/atomic"
 	"syscall"
 	"time"
 
@@ -77,19 +78,26 @@ func serverMain() {
 	fmt.Printf("ready %d\n", si.ns.ID())
 	var mu sync.Mutex
 	tick := false
+	var ticks int64
 	go func() {
 		for {
 			time.Sleep(40 * time.Millisecond)
 			mu.Lock()
-			if tick && si != nil {
-				si.set()
-			}
+			cur, on := si, tick
 			mu.Unlock()
+			if on && cur != nil {
+				cur.set() // may stall inside the server (blocking notify under its lock); observed through "ticks"
+				atomic.AddInt64(&ticks, 1)
+			}
 		}
 	}()
 	in := bufio.NewScanner(os.Stdin)
 	for in.Scan() {
 		cmd := strings.TrimSpace(in.Text())
+		if cmd == "ticks" {
+			fmt.Printf("ticks %d\n", atomic.LoadInt64(&ticks))
+			continue
+		}
 		mu.Lock()
 		switch cmd {
 		case "set":
@@ -226,4 +234,32 @@ func (sp *srvProc) kill() {
 		sp.cmd.Process.Kill()
 		sp.cmd.Wait()
 	}
+}
+
+// ticking reports whether the server child still changes the monitored values.
+func (sp *srvProc) ticking() bool {
+	read := func() (int64, bool) {
+		sp.mu.Lock()
+		defer sp.mu.Unlock()
+		if sp.dead {
+			return 0, false
+		}
+		if _, err := io.WriteString(sp.in, "ticks\n"); err != nil {
+			return 0, false
+		}
+		line, err := sp.readLine(10 * time.Second)
+		var n int64
+		if err != nil || !strings.HasPrefix(line, "ticks ") {
+			return 0, false
+		}
+		fmt.Sscan(line[6:], &n)
+		return n, true
+	}
+	a, ok := read()
+	if !ok {
+		return false
+	}
+	time.Sleep(400 * time.Millisecond)
+	b, ok := read()
+	return ok && b > a
 }
